@@ -84,6 +84,42 @@ impl Dfa {
         self.accepting(s)
     }
 
+    /// Is some canonical path strictly beneath `dir` accepted? (`dir` is a canonical path, the
+    /// continuation is `/` followed by non-empty components none of which is `.`.) Exhaustive
+    /// search of the automaton's states reachable after `dir/`.
+    pub fn accepts_something_beneath(&self, dir: &str) -> bool {
+        let Ok(alphabet) = alphabet(&[self.pattern.as_str()], &[]) else { return true };
+        let mut s = self.start;
+        for c in dir.chars() {
+            s = self.step(s, c);
+        }
+        if !dir.is_empty() && dir != "/" {
+            s = self.step(s, '/');
+        }
+        // phase: 1 = a component must start, 2 = the component is "." so far, 3 = inside a component
+        let mut seen: std::collections::HashSet<(StateID, u8)> = std::collections::HashSet::new();
+        let mut queue = vec![(s, 1u8)];
+        seen.insert((s, 1));
+        while let Some((q, phase)) = queue.pop() {
+            for &c in &alphabet {
+                let next_phase = match (phase, c) {
+                    (1, '/') | (2, '/') => continue,
+                    (3, '/') => 1,
+                    (1, '.') => 2,
+                    _ => 3,
+                };
+                let q2 = self.step(q, c);
+                if next_phase == 3 && self.accepting(q2) {
+                    return true;
+                }
+                if seen.insert((q2, next_phase)) {
+                    queue.push((q2, next_phase));
+                }
+            }
+        }
+        false
+    }
+
     pub fn state_count_hint(&self) -> usize {
         self.dfa.memory_usage()
     }
